@@ -50,14 +50,15 @@ def seeded():
            "|---|---|---|" + "---|" * len(props)]
     n_own = n = 0
     missed = []
-    for l in lines[1:]:
+    for l in sorted(lines[1:], key=lambda l: (l[0].split('_')[0], int(l[0].split('_')[1]))):
         name = l[0]
         meta = {}
         mpth = os.path.join(HERE, "seeded", name, "meta.json")
         if os.path.exists(mpth):
             meta = json.load(open(mpth))
         num = int(name.split("_")[1])
-        rnd = 1 if num <= 2 else 2 if num <= 4 else (3 if name[:3] in ("C01", "C03", "C07", "C08", "C10", "C12", "C14", "C20") else 4)
+        rnd = (1 if num <= 2 else 2 if num <= 4 else (3 if name[:3] in ("C01", "C03", "C07", "C08", "C10", "C12", "C14", "C20") else 4) if num <= 6
+               else 5 if num <= 8 else 6 if num <= 10 else 7)
         if name[:3] in ("C14", "C20") and num == 3:
             rnd = 2
         own = name[:3]
